@@ -18,6 +18,7 @@
 package parse
 
 import (
+	"encoding/json"
 	"errors"
 	"fmt"
 	"strconv"
@@ -334,14 +335,28 @@ func (p *flagParser) parseStringDQuote() (string, error) {
 		}
 
 		i += off
-		if in[i-1] != '\\' {
+		// the quote closes the string unless it is escaped, i.e. preceded by
+		// an odd number of backslashes
+		escaped := false
+		for j := i - 1; j >= 1 && in[j] == '\\'; j-- {
+			escaped = !escaped
+		}
+		if !escaped {
 			break
 		}
 		off = i + 1
 	}
 
 	p.input = in[i+1:]
-	return strconv.Unquote(in[:i+1])
+	s, err := strconv.Unquote(in[:i+1])
+	if err != nil {
+		// JSON knows escapes Go does not: \/ and surrogate pairs (\ud83d\ude00)
+		var js string
+		if jsonErr := json.Unmarshal([]byte(in[:i+1]), &js); jsonErr == nil {
+			return js, nil
+		}
+	}
+	return s, err
 }
 
 func (p *flagParser) parseStringSQuote() (string, error) {
